@@ -153,7 +153,7 @@ def finish(rep: Report, tier: str, seed: int, t0: float, replay_only=None) -> in
         print(f"{f.file}:{f.line}: [{f.rule}] {f.scope}: {f.why}")
         print(f"    construct: {f.construct[:300]}")
         if f.witness:
-            print(f"    witness: {f.witness[:400]}")
+            print(f"    witness: {str(f.witness)[:400]}")
         print(f"VIOLATION property={rep.property_id} replay={path}")
     write_evidence(rep, tier, seed, time.time() - t0, len(new), len(knownhit))
     return 1 if new else 0
